@@ -27,6 +27,9 @@ def absBip (G : BipG) : AbsBipGraph where
   edges := G.edges.map (fun e => ((e.1 : Int), (e.2 : Int)))
   is_bipartite := true
 
+/-- `B.number_of_edges()` of a `BipartiteGraph` object under construction -/
+def bipNumberOfEdges (G : BipG) : Int := (G.numberOfEdges : Nat)
+
 /-- a `DirectedGraph` object, as seen by the family generators -/
 def absDi (D : DiG) : AbsDiGraph where
   is_dag := D.isDag
